@@ -466,7 +466,7 @@ int main(int argc, char** argv)
     E.set("creation_not_loadable", pool.counts["creation_not_loadable"]);
     E.exhaustive = !S.cut_short;
     E.rule = "histories over {A T F S L D K U I R G X} (see header), breadth-first to depth " + std::to_string(g_cfg.max_depth) +
-             ", operations applied only where enabled, states merged on equal DB records + in-memory snapshot; per history a clean close + LoadExisting in a fresh process compared with the pre-close wallet; "
+             ", operations applied only where enabled, states merged on equal DB records + in-memory snapshot; per history a clean close + LoadExisting in a fresh process compared with the pre-close wallet; " +
              (big ? "for every history to depth " + std::to_string(crash_depth) + " and {T S R}" : std::string("for the histories {A} {I} {L D} {T S R}")) + " every crash state with crash point in the last operation (kill prefixes" + (big ? ", torn last writes at depth 1" : "") +
              ", power-loss cuts; deduplicated by bytes) reloaded; plus every crash state of wallet creation. evaluations = reloads judged; distinct_nontrivial = distinct (history, reloaded records + snapshot) outcomes";
     E.assume("no chain is attached: a transaction becomes confirmed by a second AddToWallet with a confirmed state; best-block records, rescans and mempool state are out of scope");
